@@ -66,6 +66,7 @@ std::string ledger_describe(size_t max) {
 	return s;
 }
 bool registry_global = false;
+bool c_impl = false;
 static inline bool should_fail() {
 	++g.alloc_count; ++g.total_allocs;
 	if ((g.fail_at && g.alloc_count == g.fail_at) || (g.fail_from && g.alloc_count >= g.fail_from)) {
@@ -164,6 +165,12 @@ int __wrap_mpt_type_add(const void *t) { RegistryScope s; return __real_mpt_type
 int __wrap_mpt_type_basic_add(size_t n) { RegistryScope s; return __real_mpt_type_basic_add(n); }
 const void *__wrap_mpt_type_metatype_add(const char *n) { RegistryScope s; return __real_mpt_type_metatype_add(n); }
 const void *__wrap_mpt_type_interface_add(const char *n) { RegistryScope s; return __real_mpt_type_interface_add(n); }
+// the three C entry points libmpt++ overrides: per run either the override (as linked) or the C implementation (cimpl_*.c)
+void *__real_mpt_meta_buffer(const void *); void *__real_mpt_meta_new(const void *); void *__real_mpt_node_new(size_t);
+void *verif_c_meta_buffer(const void *); void *verif_c_meta_new(const void *); void *verif_c_node_new(size_t);
+void *__wrap_mpt_meta_buffer(const void *a) { return sim::c_impl ? verif_c_meta_buffer(a) : __real_mpt_meta_buffer(a); }
+void *__wrap_mpt_meta_new(const void *v) { return sim::c_impl ? verif_c_meta_new(v) : __real_mpt_meta_new(v); }
+void *__wrap_mpt_node_new(size_t n) { return sim::c_impl ? verif_c_node_new(n) : __real_mpt_node_new(n); }
 void __wrap__mpt_abort(const char *msg, const char *fcn, const char *file, int line) {
 	if (g.jb_armed) { g.abort_msg = msg; longjmp(g.jb, 1); }
 	__real__mpt_abort(msg, fcn, file, line);
